@@ -1,8 +1,12 @@
 import ModbusVerif.Model.Prelude
 /-
   encoding.go, function by function. `none` stands for a Go run-time panic
-  (index / slice bound out of range). Invalid selector values behave as in Go:
-  no `case` matches, the zero-initialised result is returned.
+  (index / slice bound out of range) in the decoders called on a slice whose length is not a
+  multiple of the element size, under the convention `cap(in) = len(in)` and a valid endianness
+  (with spare capacity `in[i:i+n]` reads beyond `len`; with an invalid endianness the 32/64-bit
+  decoders never index: out of contract, not reachable through the public API — see the note at
+  `u16s_panic_iff` in Props/C17.lean). Invalid selector values on well-sized input behave as in
+  Go: no `case` matches, the zero-initialised result is returned.
 -/
 namespace Modbus.Enc
 
